@@ -515,6 +515,31 @@ func runCase(o *drv.Out, ci int, nBlocks int, maxClones int) {
 	}
 }
 
+// stateSig refines the signature of a latest-state mismatch: a key that some block of the history deleted is
+// present although the committed state it is compared with does not have it (a purged latest-state entry is back)
+func (rec *record) stateSig(def string, got, want []kv) string {
+	in := map[string]bool{}
+	for _, e := range want {
+		in[string(e.k)] = true
+	}
+	for _, g := range got {
+		if in[string(g.k)] {
+			continue
+		}
+		for _, ev := range rec.evs {
+			if ev.kind != "blk" {
+				continue
+			}
+			for _, d := range ev.blk.dels {
+				if bytes.Equal(d, g.k) {
+					return "C09:deleted-key-back-in-latest-state"
+				}
+			}
+		}
+	}
+	return def
+}
+
 func describe(evs []event) []string {
 	var out []string
 	for _, e := range evs {
@@ -612,7 +637,7 @@ func checkClone(o *drv.Out, name string, c clone, rec *record, cfg lib.Config) {
 	o.Op(fmt.Sprintf("crash %d", p), fmt.Sprintf("ok %d", h))
 	o.Op("state", showScan(st))
 	if !sameScan(st, rec.stateAt(p, h)) {
-		fail("C09:state-differs-from-committed-height", fmt.Sprintf("reopened at %d: state %s, uncrashed run had %s", h, showScan(st), showScan(rec.stateAt(p, h))))
+		fail(rec.stateSig("C09:state-differs-from-committed-height", st, rec.stateAt(p, h)), fmt.Sprintf("reopened at %d: state %s, uncrashed run had %s", h, showScan(st), showScan(rec.stateAt(p, h))))
 	}
 	if h >= 1 {
 		o.Op("root", "v "+drv.Hex(root))
@@ -699,7 +724,8 @@ func checkClone(o *drv.Out, name string, c clone, rec *record, cfg lib.Config) {
 	if err == nil {
 		o.Op("state", showScan(st))
 		if !sameScan(st, rec.stateAt(last, rec.snaps[last].version)) {
-			fail("C09:continued-state-differs", fmt.Sprintf("reopened at %d and continued to the end of the history: final state differs from the uncrashed run", h))
+			want := rec.stateAt(last, rec.snaps[last].version)
+			fail(rec.stateSig("C09:continued-state-differs", st, want), fmt.Sprintf("reopened at %d and continued to the end of the history: final state %s differs from the uncrashed run's %s", h, showScan(st), showScan(want)))
 		}
 	}
 	o.Count("clone:checked")
